@@ -14,7 +14,7 @@ class C12(core.Check):
     pid = 'C12'
     unproved = [
         "spans that contain a fill (the property's hypothesis allows one per trading-candle span): paired-run oracle",
-        'the candle stores of the two simulators: stores_agree (two engines that satisfy the C07 run invariant for the same stored minutes give a reader the same candles of every timeframe, and equal stored arrays on a window boundary) — that both simulators store the same NORMALISED minutes is the C07 run-level theorems for each of them plus correspondence, not one theorem',
+        'the candle stores of the two simulators: stores_agree (two engines that satisfy the C07 run invariant for the same stored minutes give a reader the same candles of every timeframe, and equal stored arrays on a window boundary) — its hypothesis (the same stored minutes) holds on gap-free data; on gapped data the normal simulator stores every minute jump-fixed while the fast one fixes only the first minute of a chunk (both as the code does), so the 1m rows of the two runs differ in the open/high/low of a gapping inner minute — C12 claims nothing about that and C07 holds for each run on its own rows',
     ]
     gen_keys = ['jesse/services/candle.py:split_candle', 'jesse/modes/backtest_mode.py:_get_fixed_jumped_candle']
     rule = ('correspondence: single-symbol sessions in BOTH simulators on the real engine and on the Lean engine model '
